@@ -93,10 +93,18 @@ def _core_replay(binname, args_fn, repo, verif, build, timeout=1500):
     shutil.rmtree(scratch, ignore_errors=True)
     os.makedirs(scratch, exist_ok=True)
     exe = os.path.join(build, "replay-core-target", "release", binname)
+    # fault-injection seam (LD_PRELOAD, no change to the repository): fsync / file creation / rename can be made to fail
+    lib = os.path.join(build, "libwalrusfault.so")
+    c = subprocess.run(["gcc", "-shared", "-fPIC", "-O1", "-o", lib, os.path.join(verif, "replay", "faultlib", "fault.c"), "-ldl"], capture_output=True, text=True)
+    run_env = dict(env)
+    if c.returncode == 0:
+        run_env["LD_PRELOAD"] = lib
     try:
-        p = subprocess.run([exe] + args_fn(scratch), env=env, capture_output=True, text=True, timeout=timeout)
-    finally:
-        pass
+        p = subprocess.run([exe] + args_fn(scratch), env=run_env, capture_output=True, text=True, timeout=timeout)
+    except subprocess.TimeoutExpired:
+        shutil.rmtree(scratch, ignore_errors=True)
+        return dict(counterexample=dict(found=True, failure="the scenario run did not finish within %ds (hang)" % timeout),
+                    counterexample_search="scenario family replay/core/%s run natively: timed out" % binname)
     last = [l for l in p.stdout.splitlines() if l.startswith("{")]
     shutil.rmtree(scratch, ignore_errors=True)
     if not last:
@@ -134,6 +142,13 @@ def core_scenarios():
     S.append(("two_topics", "strict", "A:a:10 A:b:20 A:a:30 R:b R:a X:a:100:1 R:b R:a"))
     S.append(("reopen_strict", "strict", "%s R:t R:t O R:t X:t:1000:1 O R:t" % small(6)))
     S.append(("reopen_strict_sealed", "strict", "%s R:t R:t R:t O R:t X:t:3000000:1 O R:t R:t" % big))
+    # rejected / failed appends must leave no trace (C04); F:* needs the LD_PRELOAD fault seam
+    S.append(("reject_after_data", "strict", "A:t:100 A:t:200 A:t:300 E:t:1073741825 A:t:400 R:t R:t R:t R:t R:t"))
+    S.append(("reject_first", "strict", "E:t:1073741825 A:t:400 R:t R:t O R:t"))
+    S.append(("reject_other_topics", "strict", "A:a:10 E:t:1073741825 A:c:20 A:t:5 O R:a R:c R:t R:t"))
+    S.append(("sync_fail", "strict+sync", "A:t:100 F:FSYNC:1 E:t:150 A:t:200 R:t R:t R:t O R:t"))
+    S.append(("sync_fail_restart", "strict+sync", "A:t:100 F:FSYNC:1 E:t:150 O R:t R:t"))
+    S.append(("stateless_alo_cursor", "alo3", "A:t:300 A:t:300 A:t:300 A:t:300 A:t:300 A:t:300 R:t S:t:1048576:1:0 P:t R:t"))
     for n in (3, 5):
         S.append(("alo%d_tail_restart" % n, "alo%d" % n, "%s %s O R:t" % (small(20), " ".join(["R:t"] * 12))))
         S.append(("alo%d_sealed_restart" % n, "alo%d" % n, "%s %s O R:t" % (big, " ".join(["R:t"] * 7))))
@@ -149,7 +164,7 @@ def family_core(prop, fail, unit_res, repo, verif, build):
     return _core_replay("walrus-replay", args, repo, verif, build)
 
 
-for _p in ("C01", "C02", "C03", "C09", "C15", "C06"):
+for _p in ("C01", "C02", "C03", "C04", "C07", "C09", "C10", "C15", "C16", "C06"):
     FAMILIES[_p] = family_core
 
 
